@@ -63,6 +63,23 @@ CHECKS = {
             'point); persistence between runs (write_env/read_env) is C14\'s model, here the carried-over Env is passed '
             'in memory through merge_done_tasks.',
             '10 (scheduler)'),
+    'C08': ('Lean 4 proof: Dataset arithmetic transcribed generically over the number type; value = plain operation, '
+            'error rules (quadratic sum for + and -, relative-error form for * and / over exact reals, |c| scaling), '
+            'well-formedness and non-negative errors for every finite chain by induction over the command list + '
+            'bit-exact differential correspondence on chains over several variables with in-place writes into copies',
+            'add_err, sub_err, mul_err_rel, div_err_rel (sqrt((e1 v2)^2+(e2 v1)^2) = |v1 v2| sqrt((e1/v1)^2+(e2/v2)^2) for '
+            'non-zero finite values, likewise for quotients), scalar_scales_err, opDS_value, opDS_keeps_left, opDS_wf / '
+            'opScalar_wf / opArray_wf / squeeze_wf, *_err_nonneg (NaN and infinities included), chain_wf_nonneg: after any '
+            'finite chain of + - * / with datasets, arrays, numbers of either sign, copies, squeezes and edits of copies, '
+            'every variable is well formed with non-negative errors; c08_pinned_refuted keeps the pinned scaling (A8) '
+            'refuted. "Operands are never modified" and "a copy shares no data" are not expressible about immutable '
+            'values: they are decided by the correspondence (per-variable contents tracked by the model, real arrays '
+            'poked in place) and by the memory-sharing probe of the oracle.',
+            'Trusted: Lean kernel + standard axioms; XReal has exact arithmetic on finite values (rounding covered by the '
+            'bit-exact comparison with numpy, 4 ulp for 0-d datasets whose **2 goes through libm pow); array operands of '
+            'the same or an incompatible shape only (numpy broadcasting to a larger shape not modelled); masks checked '
+            'by the oracle only.',
+            '10 (C08)'),
     'C17': ('Lean 4 proof: inverted index = direct scan (induction over items, keyword lists and filter chains) + '
             'differential correspondence of the compiled model with Browser on random chains',
             'All items / queries / chains of the model are covered by kernel-checked theorems (index_spec, '
